@@ -4,6 +4,7 @@
 From Coq Require Import List Bool Arith ZArith QArith.
 From GolemV Require Import Fitness.Fitness Archive.Hof Archive.Pareto.
 Import ListNotations.
+Local Open Scope nat_scope.
 
 (* ---------------- which archive ---------------- *)
 Inductive akind := AHof (k : nat) | APareto (s : simkind) (cap : nat).
@@ -62,9 +63,9 @@ Record keeper := { k_arch : hof; k_gen : nat; k_stag : nat; k_impr : list bool }
 Definition keeper_init (n : nat) : keeper :=
   {| k_arch := empty_arch; k_gen := 0; k_stag := 0; k_impr := repeat false n |}.
 
-Definition any_improved (st : keeper) : bool := existsb (fun b => b) (k_impr st).
+Definition any_improved (st : keeper) : bool := existsb (fun b : bool => b) (k_impr st).
 (* any(self._metrics_improvement[m] for m in objective.quality_metrics): the first nq metrics *)
-Definition quality_improved (nq : nat) (st : keeper) : bool := existsb (fun b => b) (firstn nq (k_impr st)).
+Definition quality_improved (nq : nat) (st : keeper) : bool := existsb (fun b : bool => b) (firstn nq (k_impr st)).
 
 (* GenerationKeeper.append (n = number of metrics of the objective) *)
 Definition keeper_append (kd : akind) (n : nat) (st : keeper) (pop : list indiv) : keeper :=
@@ -73,7 +74,7 @@ Definition keeper_append (kd : akind) (n : nat) (st : keeper) (pop : list indiv)
   let flags := metric_flags n prev (rows_of a') in
   {| k_arch := a';
      k_gen := S (k_gen st);
-     k_stag := if existsb (fun b => b) flags then 0 else S (k_stag st);
+     k_stag := if existsb (fun b : bool => b) flags then 0 else S (k_stag st);
      k_impr := flags |}.
 
 Definition keeper_run (kd : akind) (n : nat) (st : keeper) (pops : list (list indiv)) : keeper :=
@@ -88,7 +89,7 @@ Fixpoint keeper_trace (kd : akind) (n : nat) (st : keeper) (pops : list (list in
 
 (* length of the longest suffix of `false` *)
 Definition trailing_false (l : list bool) : nat :=
-  fold_left (fun c b => if b then 0 else S c) l 0.
+  fold_left (fun (c : nat) (b : bool) => if b then 0 else S c) l 0.
 
 (* ======================================================================================= *)
 (* correspondence: what the harness drives and observes                                    *)
@@ -285,3 +286,15 @@ Definition in_scope (t : target) (pops : list (list indiv)) : bool :=
 
 Definition holds_b (t : target) (pops : list (list indiv)) (obs : list ostep) : bool :=
   implb (in_scope t pops) (clauses_from t [] [] 0 0 pops obs).
+
+(* ---------------- case format of the harness ---------------- *)
+(* a case names its individuals once (pool) and gives the populations as index lists *)
+Definition dummy_indiv : indiv := {| uid := 0; fitness := Single None []; gclass := 0; ngen := None |}.
+
+Definition resolve (pool : list indiv) (ipops : list (list nat)) : list (list indiv) :=
+  map (map (fun i => nth i pool dummy_indiv)) ipops.
+
+Definition check_case (c : target * list indiv * list (list nat) * list ostep) : list bool :=
+  match c with
+  | (t, pool, ipops, obs) => let pops := resolve pool ipops in [agree t pops obs; holds_b t pops obs]
+  end.
